@@ -1051,3 +1051,11 @@ pub use crate::client::synchronous::threaded::new_threaded_client;
 pub use crate::client::synchronous::threaded::builder::ThreadedClientBuilder;
 
 
+
+#[cfg(feature = "verif")]
+impl MqttClientImpl {
+    pub(crate) fn verif_next_reconnect_period(&self) -> Duration { self.next_reconnect_period }
+    pub(crate) fn verif_set_successful_connect_time(&mut self, time: Option<Instant>) { self.successful_connect_time = time; }
+    pub(crate) fn verif_set_current_state(&mut self, state: ClientImplState) { self.current_state = state; }
+    pub(crate) fn verif_set_desired_state(&mut self, state: ClientImplState) { self.desired_state = state; }
+}
